@@ -124,6 +124,14 @@ def _run(unit, fn, args, st):
             if isinstance(b, tuple) and b[0] == "member":
                 return 0
             return NotImplemented
+        if k == "BinaryOperator" and n.get("opcode") == "=" and A.strip_casts(ks[0]).get("kind") == "BinaryOperator" and A.strip_casts(ks[0]).get("opcode") in (".*", "->*"):
+            l = A.strip_casts(ks[0])
+            b, m = ev.ev(A.kids(l)[0]), ev.ev(A.kids(l)[1])
+            if isinstance(b, tuple) and b[0] in ("slot", "slotptr") and isinstance(m, tuple) and m[0] == "memptr":
+                v = ev.ev(ks[1])
+                st[("slot", b[1], m[1])] = v
+                return v
+            raise FD.Unknown("store through a pointer to member on %r" % (b,), n)
         if k == "BinaryOperator" and n.get("opcode") == "=":
             l = A.strip_casts(ks[0])
             key = cell(l, ev) if l.get("kind") == "MemberExpr" else None
@@ -253,10 +261,19 @@ def check_clear(unit):
     for order in queue_states():
         for k in range(NSLOTS):
             st = initial(order)
+            # every slot is bound to controllers as well: clearing one unbinds it and leaves the others bound
+            for i in range(NSLOTS):
+                st[("slot", i, "midi_cc")] = 20 + i
+                st[("slot", i, "midi_nrpn")] = 300 + i
             _run(unit, fn, [k], st)
             n += 1
             got = queue_of(st)
             want = expected_after_removal(order, k)
+            bound = {i: (st.get(("slot", i, "midi_cc")), st.get(("slot", i, "midi_nrpn"))) for i in range(NSLOTS)}
+            want_bound = {i: ((-1, -1) if i == k else (20 + i, 300 + i)) for i in range(NSLOTS)}
+            if bound != want_bound:
+                bad.append({"waiting_in_order": list(order), "cleared": k, "controller_bindings_afterwards": bound, "expected_bindings": want_bound})
+                continue
             if got != want:
                 bad.append({"waiting_in_order": list(order), "cleared": k, "positions_afterwards": got[0], "learn_queue_len": got[1],
                             "expected_positions": want[0], "expected_len": want[1]})
